@@ -13,10 +13,23 @@ def main():
     jobs = []
     for cfg in driver.CONFIGS:
         jobs.append((cfg, "apimon", {}))
+        jobs.append((cfg, "transcript", {}))
+        jobs.append((cfg, "conc", {}))
+        jobs.append((cfg, "ctvictim", {"static": True}))
+        if driver.CONFIGS[cfg]["env"].get("GOARCH") != "386":
+            jobs.append((cfg, "conc", {"race": True}))
     for cfg, cmd, kw in jobs:
         try:
             p = driver.build(cfg, cmd, **kw)
             print("setup: built", cfg, cmd)
+        except driver.BuildError as e:
+            print(e)
+            ok = False
+    for cfg in driver.CONFIGS:
+        try:
+            ov, rep = driver.monitored_overlay(cfg)
+            driver.build(cfg, "layers", overlay=ov, extra_tags=["verifmon"], suffix="-mon")
+            print("setup: built monitored build", cfg)
         except driver.BuildError as e:
             print(e)
             ok = False
